@@ -20,14 +20,25 @@ def gen_ops(rng, tier, ctx=None):
             yield "mpz_gcdext 0 %s %s" % (hx(g), hx(-g))                                               # |a| = |b|
             yield "mpz_gcdext 0 %s %s" % (hx(7 * g), hx(g))                                            # b | a
             yield "mpz_gcdext 0 %s %s" % (hx(g), hx(5 * g))
-    if tier == "thorough":
-        # half-gcd reduction regime (HGCD_REDUCE_THRESHOLD limbs inside mpn_hgcd needs gcd operands about three times as long),
-        # with long all-ones runs so that the wrap-around carries of the mod B^n-1 products fire
-        R = th.get("HGCD_REDUCE_THRESHOLD", 6852)
-        for N in (3 * R + 500, 3 * R + 3500):
-            m = 64 * (N // 16); t = rng.getrandbits(64) | 1
-            X = t << m
-            V = X ** 16 - 1; U = (X - 1) * (rng.getrandbits(64 * 50) | 1)
-            yield "mpz_gcd 0 %s %s" % (hx(U), hx(V))
+    # half-gcd reduction regime: mpn_hgcd_reduce multiplies (a;b) by M^-1 modulo B^modn - 1 only when mpn_hgcd is entered with
+    # n >= HGCD_REDUCE_THRESHOLD limbs, i.e. gcd operands about three times as long.  V = X^16 - 1 with X = t*2^m has a run of
+    # 16m one-bits, so the end-around carries of the wrap-around folds fire; U = (X-1)*u fills the same number of limbs.
+    R = th.get("HGCD_REDUCE_THRESHOLD", 6852)
+    cases = [(3 * R + 444, 0.9227)] if tier == "quick" else [(3 * R + 444, 0.9227), (3 * R + 3444, 0.9227), (3 * R + 444, 0.75), (3 * R + 1500, 0.5), (4 * R, 0.96)]
+    for N, frac in cases:
+        K = int(N * frac) // 16 * 16
+        m = 4 * K
+        tbits = (64 * (N - K) - 15) // 16
+        t = rng.getrandbits(tbits - 100) | 1 << (tbits - 1)
+        X = t << m
+        V = X ** 16 - 1; g0 = X - 1
+        ub = 64 * N - g0.bit_length()
+        u = rng.getrandbits(ub) | 1 << (ub - 1) | 1
+        U = g0 * u
+        yield "mpz_gcd 0 %s %s" % (hx(U), hx(V))
+        if tier != "quick":
+            yield "mpz_gcd 0 %s %s" % (hx(V), hx(-U))
+            yield "mpz_gcdext 0 %s %s" % (hx(U), hx(V))
+            yield "mpz_invert 0 %s %s" % (hx(u), hx(V))
             a = rng.getrandbits(64 * N); b = rng.getrandbits(64 * N)
             yield "mpz_gcd 0 %s %s" % (hx(a), hx(b))
